@@ -172,7 +172,9 @@ func listReps(thorough bool) []func(key string) attrNode {
 		func(k string) attrNode { return leaf(k, "string:space") },
 		func(k string) attrNode { return group(k, leaf("x", "int:-1")) },
 		func(k string) attrNode { return group(k) },
-		func(k string) attrNode { return group(k, leaf("y", "string:plain"), group("h", leaf("z", "bool:true"))) },
+		func(k string) attrNode {
+			return group(k, leaf("y", "string:plain"), group("h", leaf("z", "bool:true")))
+		},
 		func(k string) attrNode { return leaf(k, "error:plain") },
 		func(k string) attrNode { return leaf(k, "nil") },
 		func(k string) attrNode { return leaf(k, "bytes:ascii") },
@@ -209,11 +211,11 @@ func groupShapes() [][]attrNode {
 	}
 	var out [][]attrNode
 	for _, g := range shapes {
-		out = append(out, []attrNode{g})                       // only
-		out = append(out, []attrNode{g, l("z")})               // first (sorts before z)
-		out = append(out, []attrNode{l("a"), g})               // last
-		out = append(out, []attrNode{l("a"), g, s("z")})       // middle
-		out = append(out, []attrNode{l("z"), g, s("a")})       // unsorted input
+		out = append(out, []attrNode{g})                 // only
+		out = append(out, []attrNode{g, l("z")})         // first (sorts before z)
+		out = append(out, []attrNode{l("a"), g})         // last
+		out = append(out, []attrNode{l("a"), g, s("z")}) // middle
+		out = append(out, []attrNode{l("z"), g, s("a")}) // unsorted input
 		g2 := g
 		g2.K = qk("g2")
 		out = append(out, []attrNode{g, l("g1"), g2, l("g3")}) // two groups interleaved with leaves
